@@ -4,3 +4,5 @@ import PenneModel.Scope.Labels
 import PenneModel.Props.C04
 import PenneModel.Place.Syntax
 import PenneModel.Props.C06
+import PenneModel.Scope.Vars
+import PenneModel.Props.C05
